@@ -8,7 +8,10 @@ Ev == Log[l]
 IsEvent(e) == l <= Len(Log) /\ Log[l].e = e /\ l' = l + 1
 TrReset   == IsEvent("reset")   /\ table' = [i \in Ids |-> Absent] /\ cache' = [i \in Ids |-> Absent] /\ fresh' = TRUE
 TrSet     == IsEvent("set")     /\ Set(Ev.id, Ev.rec)
+(* mint = a master key of that contract / signature / master id was accepted by keygen.CreateKey (C11: "only a valid,
+   unexpired master key of an allowed contract can mint keys") *)
 TrUse     == IsEvent("use")     /\ Use(Ev.id, Ev.sign, Ev.master) /\ Ev.ok = Verdict(Ev.id, Ev.sign, Ev.master)
+                                /\ (Has(Ev, "mint") => Ev.mint = Verdict(Ev.id, Ev.sign, Ev.master))
 TrRefresh == IsEvent("refresh") /\ Refresh
 TraceInit == CInit /\ l = 1 /\ MarkInit
 TraceNext == TrReset \/ TrSet \/ TrUse \/ TrRefresh
